@@ -762,7 +762,7 @@ CFGS = {
     "ajj-parse-secondary": {"item": "1AJJ.pdb", "window": [0, 12],
                             "argv": ["--ff=PARSE", "--neutraln", "--neutralc",
                                      "--pdb-output={pdbout}", "--apbs-input={apbsout}"]},
-    "qbs-ligand": {"item": "1US0.pdb", "window": [0, 8],
+    "qbs-ligand": {"item": "1US0.pdb", "window": [0, 8], "lig_het": "1US0-ligand.mol2",
                    "argv": ["--ff=AMBER", "--ligand={ligand}"],
                    "files": {"ligand": "1US0-ligand.mol2"}},
     "hid-propka": {"item": "cterm_hid.pdb",
@@ -805,6 +805,13 @@ def trigger_scenarios():
                      ["--ff=PARSE", "--nodebump", "--noopt"]):
             t(f"input-{kind}:{' '.join(opts)}", dict(base, content={"kind": kind}, argv=opts))
     t("input-invalid-utf8", dict(base, content={"kind": "utf8", "at": 200}, argv=amber))
+    # a coordinate that cannot be read makes the structure unreadable
+    for rec, cols, text, nm in ((40, [30, 38], "  1X.123", "x"), (3, [38, 46], " ****** ", "y"),
+                                (77, [46, 54], "   n/a  ", "z"), (10, [30, 38], "        ", "blank-x")):
+        for opts in (amber, ["--clean"]):
+            t(f"input-garbled-coordinate-{nm}:{' '.join(opts)}",
+              dict(base, content={"kind": "field", "record": rec, "cols": cols, "text": text},
+                   argv=opts))
     t("input-missing-file", dict(base, input_mode="missing", input_name="nosuchfile.pdb",
                                  argv=amber))
     t("input-is-directory", dict(base, input_mode="dir", argv=amber))
